@@ -291,6 +291,12 @@ def evaluate(ctx, res, cases, lw_values, verbose=False):
             if pe is not None:
                 reqs.append(["map.spec_ext", fg, N, P, ";".join("%d=%s" % (lw, t) for lw, t in pe[1]) or "-"])
                 idx.append((ci, "spec_ext"))
+        # the same statement at the adapter entry point (extract_secondary_structure_from_external)
+        if "adapter" in o and o["adapter"][0] == "ok":
+            pa = parse_extended(o["adapter"][1][2], lw_values)
+            if pa is not None:
+                reqs.append(["map.spec_ext", fg, N, P, ";".join("%d=%s" % (lw, t) for lw, t in pa[1]) or "-"])
+                idx.append((ci, "spec_ext_adapter"))
     resp = ctx.driver.ask(reqs)
     per_case = [dict() for _ in cases]
     for (ci, what), r in zip(idx, resp):
@@ -387,6 +393,9 @@ def evaluate(ctx, res, cases, lw_values, verbose=False):
                         f.append(("corr", "C06:adapter:extended", "adapter extended text differs"))
                 if dbs != [db]:
                     f.append(("corr", "C06:adapter:dot_brackets", "returned list is not [dotBracket]"))
+                if pc.get("spec_ext_adapter") not in (None, "ok"):
+                    f.append(("spec", "C06:adapter:" + str(pc.get("spec_ext_adapter")).replace("fail:", ""),
+                              "extended dot-bracket returned by extract_secondary_structure_from_external: %s" % pc.get("spec_ext_adapter")))
     # all_dot_brackets layout: model text for every structure line of the model's allDB
     reqs3, idx3 = [], []
     for ci, ((tag, c), o) in enumerate(zip(cases, outs)):
